@@ -19,6 +19,7 @@ from __future__ import annotations
 
 import ast
 
+from ..fnview import FnView
 from .. import paths
 from ..cfg import CFG
 from ..pattern import canon, match
@@ -533,6 +534,35 @@ def l7(run, mod, fns, project):
         run.info("L7: the naming helper of find_type is not a nested function; the naming table is not applied to this form")
         return
     a0, a1 = [x.arg for x in namer.args.args][:2]
+    # plumbing of the listing: the search gets (front-end, bytes of the file) in its own parameter order, and the namer gets
+    # the (candidate, command code) pairs as the search yields them
+    pa = fns["parse_all_types"]
+    ppar = [x.arg for x in pa.args.args]
+    V = FnView(mod, ft)
+    for c in [c for c in walk_no_nested(ft) if isinstance(c, ast.Call) and call_name(c) == "parse_all_types"]:
+        got = {ppar[i]: a_ for i, a_ in enumerate(c.args) if i < len(ppar)}
+        got.update({k.arg: k.value for k in c.keywords if k.arg})
+        fe = V.resolve(got.get(ppar[0]), c) if got.get(ppar[0]) is not None else None
+        bu = V.resolve(got.get(ppar[1]), c) if len(ppar) > 1 and got.get(ppar[1]) is not None else None
+        ok = isinstance(fe, ast.Subscript) and norm(fe.slice) == "args.format_in" and isinstance(bu, ast.Call) \
+            and norm(bu) in ("bytes(bytes_from_files(args.file))", "b''.join(bytes_from_files(args.file))")
+        run.ob("L7", ok, "type: the search gets the chosen front-end and the bytes of the file",
+               f"parse_all_types is called with {ppar[0]}=`{norm(fe)[:50] if fe is not None else None}`, "
+               f"{ppar[1] if len(ppar) > 1 else '?'}=`{norm(bu)[:50] if bu is not None else None}`", module=mod, node=c, func="find_type",
+               construct="type search arguments")
+    ys = [y for y in walk_no_nested(pa) if isinstance(y, ast.Yield) and isinstance(y.value, ast.Tuple) and len(y.value.elts) == 2]
+    for c in [c for c in ast.walk(ft) if isinstance(c, ast.Call) and call_name(c) == namer.name]:
+        # the arguments are the two targets of the loop over the search results, in order
+        comp = next((g for x in ast.walk(ft) for g in getattr(x, "generators", []) if any(c is y for y in ast.walk(x))), None)
+        tg = [norm(t) for t in comp.target.elts] if comp is not None and isinstance(comp.target, ast.Tuple) else None
+        if tg is None:
+            lp = next((x for x in ast.walk(ft) if isinstance(x, ast.For) and any(c is y for y in ast.walk(x))), None)
+            tg = [norm(t) for t in lp.target.elts] if lp is not None and isinstance(lp.target, ast.Tuple) else None
+        if tg is None or not ys:
+            continue
+        run.ob("L7", [norm(a_) for a_ in c.args] == tg and not c.keywords, "type: each candidate is named with its own command code",
+               f"the namer is called as `{norm(c)}` for results unpacked as {tg}", module=mod, node=c, func="find_type",
+               construct="type listing arguments")
     for p in paths.Summariser(mod, namer).paths():
         t = p.truth(f"isinstance({a0}.object, Response)")
         want = {True: f"f'Response ({{{a1}}})'", False: f"f'{{type({a0}.object).__name__}}'"}.get(t)
